@@ -141,6 +141,16 @@ theorem frag_mass_eq_mass_labelled (menv : Pept.Env) (dl : Mod → Option Rat) (
   exact mkFrag_mass_eq_massWith_labelled CompCalc.compMass menv _ _ _ j t s len c iso loss
     (by rw [hpl.isotope]; rfl) hd hN hprec hlen hc hshift
 
+/-- non-vacuity: a plain labelled peptide, a resolver for which every modification is a pure mass shift, residues
+that resolve on the generated residue table -/
+example : PlainL { seq := ['P', 'E', 'P'], isotope := some [⟨.str ['1', '3', 'C'], 1⟩], nterm := some [⟨.int 1, 1⟩] }
+    [⟨.str ['1', '3', 'C'], 1⟩] := ⟨rfl, rfl, rfl, rfl, rfl, rfl⟩
+
+example : ModsResolve { res := fun _ => ⟨.ok 1, .ok 1, .ok (some 1), .ok []⟩, parseStatic := fun _ => .ok [] }
+    (knownOf true) (fun _ => some 1) (fun _ => []) := ⟨fun _ => rfl, fun _ h => by cases h⟩
+
+example : ∀ c ∈ ['P', 'E', 'P'], (lookup c.toNat Gen.aaComp).isSome = true := by decide +kernel
+
 /-- **why the shift is keyed by (ion type, charge)**: using the shift computed for charge `c₀` at charge `c` changes
 the ion's mass by `(O c₀ − O c) − proton·(c₀ − c)` … -/
 theorem label_shift_needs_charge (P : MassParams) (mono : Bool) (t : Ion) (O : Int → Rat) (c c₀ : Int) :
